@@ -24,6 +24,7 @@ package seq
 //@ ghostfield cellQual(k int) alphabet.Qphred
 //@ func (Sequence).At
 //@   pure
+//@   requires [in-range] rowStart(self) <= arg0 && arg0 < rowStart(self) + rowLen(self)
 //@   ensures result.L == cellLetter(cellKey(ref(self), arg0)) && result.Q == cellQual(cellKey(ref(self), arg0))
 
 // Sequences handed to the writers carry an alphabet (assumption).
@@ -62,6 +63,9 @@ package seq
 //@ func (Sequence).End
 //@   pure
 //@   ensures result == rowStart(self) + rowLen(self) && rowLen(self) >= 0 && -9223372036854775808 <= result && result <= 9223372036854775807
+//@ func (Sequence).Len
+//@   pure
+//@   ensures result == rowLen(self) && result >= 0
 //@ func (Sequence).SetOffset
 //@   ensures rowStart(self) == arg0
 //@   assigns rowStart(self)
